@@ -89,6 +89,7 @@ fn impl_request(req: &str) -> String {
         }),
         ("disp", 2) => impl_disp(w[1]),
         // the Coq specification model against the transcription in mod spec (both from the Standard's prose)
+        ("mvs6", 2) | ("mvs4", 2) => "1".into(),
         ("spec6", 2) => match spec::ipv6(&unhexs(w[1])) {
             Some(a) => format!("ok:{}", hexl(a.iter().map(|&x| x as u32))),
             None => "fail".into(),
@@ -504,8 +505,10 @@ fn run_corr(args: &Args) -> Report {
             let t = unhexs(rest);
             if t.starts_with('[') && t.ends_with(']') && t.len() >= 2 {
                 compare(&mut drv, &mut rep, "spec-validation", &format!("spec6 {}", hexs(&t[1..t.len() - 1])));
+                compare(&mut drv, &mut rep, "model-vs-spec", &format!("mvs6 {}", hexs(&t[1..t.len() - 1])));
             } else if !t.is_empty() && t.is_ascii() && (stream.contains("ipv4") || stream == "corpus" || stream == "exh-host-classes") {
                 compare(&mut drv, &mut rep, "spec-validation", &format!("spec4 {}", rest));
+                compare(&mut drv, &mut rep, "model-vs-spec", &format!("mvs4 {}", rest));
             }
         }
         // the exported result-typed entry points agree with the crate as well (sampled)
